@@ -76,6 +76,33 @@ func expectedDefs(src string) []string {
 	return out
 }
 
+// arityViolations: a library function applied to more arguments than it takes means that
+// parentheses around one of its operands were lost (the operand's own arguments became
+// arguments of the library function).
+func arityViolations(f *gl.File) []string {
+	defined := map[string]bool{}
+	for _, d := range f.Defs() {
+		defined[d.Name] = true
+	}
+	var out []string
+	for _, d := range f.Defs() {
+		gl.WalkExpr(d.Body, func(e gl.Expr) {
+			a, ok := e.(gl.App)
+			if !ok {
+				return
+			}
+			g, ok := a.Fn.(gl.Global)
+			if !ok || defined[g.Name] {
+				return
+			}
+			if n, ok := gl.LibraryArity(g.Name); ok && len(a.Args) > n {
+				out = append(out, fmt.Sprintf("in %s: %s takes %d arguments but is applied to %d: %s", d.Name, g.Name, n, len(a.Args), short(gl.Show(a))))
+			}
+		})
+	}
+	return out
+}
+
 func defBodies(f *gl.File) map[string]string {
 	m := map[string]string{}
 	for _, d := range f.Defs() {
@@ -295,6 +322,31 @@ func runC05(r *core.Run) (bool, string) {
 		if p.ParseErr == "" && p.VFile != "" {
 			f, _ := gl.ParseFile(p.VFile)
 			base[p.Name] = defBodies(f)
+			c05Arity(r, p.Name, f, srcOf[p.Name])
+		}
+	}
+	// the places x operations matrix puts compound operands into every construct
+	if mx := pruneToCompile(r, filepath.Join(r.Scratch, "c05-matrix-prune"), gen.MatrixPackages()); mx != nil {
+		var mp []*gorun.Pkg
+		for _, p := range mx {
+			mp = append(mp, &gorun.Pkg{Name: p.Name, Files: map[string]string{p.Name + ".go": p.Source}})
+		}
+		mb, err := gorun.Write(filepath.Join(r.Scratch, "c05-matrix"), mp, []string{"case"})
+		if err == nil {
+			g := mb.RunGoose(goose, filepath.Join(r.Scratch, "c05-matrix", "out"), []string{"-ignore-errors"})
+			for _, p := range mp {
+				vb, err := os.ReadFile(mb.VPath(g.OutDir, p.Name))
+				if err != nil {
+					continue
+				}
+				f, perr := gl.ParseFile(string(vb))
+				r.Eval(1)
+				if perr != nil {
+					r.Violate("c05-matrix-unreadable", "matrix package "+p.Name+" is not well-formed: "+perr.Error(), map[string]interface{}{"v": string(vb)})
+					continue
+				}
+				c05Arity(r, p.Name, f, p.Files[p.Name+".go"])
+			}
 		}
 	}
 	b := &gorun.Batch{Dir: filepath.Join(dir)}
@@ -499,5 +551,20 @@ func c05Names(r *core.Run, goose string) {
 				break
 			}
 		}
+	}
+}
+
+func c05Arity(r *core.Run, pkg string, f *gl.File, src string) {
+	n := 0
+	for _, d := range f.Defs() {
+		gl.WalkExpr(d.Body, func(e gl.Expr) {
+			if _, ok := e.(gl.App); ok {
+				n++
+			}
+		})
+	}
+	r.Count("applications_checked_for_arity", int64(n))
+	if vs := arityViolations(f); len(vs) > 0 {
+		r.Violate("c05-library-function-over-applied", "lost parentheses: "+vs[0], map[string]interface{}{"pkg": pkg, "all": vs, "source": src})
 	}
 }
